@@ -192,6 +192,53 @@ def rule_g(F):
     return out
 
 
+def rule_s(F):
+    """sorted / sorted_by_key order by the language's own ordering and stably: the comparator handed to the sort is
+    `<Value as PartialOrd>::partial_cmp` applied to the two keys as they are (no conversion in between), the sort is one
+    of the stable std sorts, and ascending (first comparator argument is the receiver)."""
+    from cao.facts import hir_walk, hir_callee, hir_local_id, pat_bindings
+    from cao import hirutil as hu
+    res = []
+    f = F.fn("stdlib::native_sorted")
+    key = "C09/S/native_sorted/orders-by-the-language-ordering-stably"
+    sorts = [x for x in hir_walk(f.hir["body"]) if x.get("k") == "mcall" and x["name"].startswith("sort")
+             and any(n.startswith("std::slice::sort") or "::sort" in n for n in hir_callee(x))]
+    if not sorts:
+        return [undecided("C09.S", key, f.loc(), "no slice sort found in native_sorted")]
+    for x in sorts:
+        probs = []
+        if "unstable" in x["name"]:
+            probs.append("%s is not a stable sort (equal keys may change their relative order)" % x["name"])
+        clo = hu.strip_casts(x["args"][0]) if x["args"] else None
+        if clo is None or clo.get("k") != "closure":
+            res.append(undecided("C09.S", key, f.loc(x["ln"]), "comparator is not a closure literal"))
+            continue
+        pids = [[i for i, _n in pat_bindings(p)] for p in clo.get("params", [])]
+        cmps = [y for y in hir_walk(clo["body"]) if y.get("k") in ("mcall", "call", "bin") and
+                any(n.endswith("PartialOrd::partial_cmp") or n.endswith("Ord::cmp") or n.endswith("total_cmp") or n.endswith("PartialOrd::lt")
+                    for n in hir_callee(y))]
+        if x["name"] in ("sort_by",):
+            if not cmps:
+                probs.append("the comparator does not compare the keys")
+            for y in cmps:
+                names = hir_callee(y)
+                if not any(n == "<value::Value as std::cmp::PartialOrd>::partial_cmp" for n in names):
+                    probs.append("keys are compared with %s instead of Value's own ordering (the one `<` uses): integers beyond 2^53, "
+                                 "strings and tables are ordered differently from the comparison cards" % names[-1])
+                    continue
+                recv = hir_local_id(hu.strip_all(y["recv"])) if y.get("k") == "mcall" else None
+                arg = hir_local_id(hu.strip_all(y["args"][0])) if y.get("args") else None
+                if len(pids) == 2 and not (recv in pids[0] and arg in pids[1]):
+                    probs.append("the comparator does not compare its first argument's key with its second's as they are (descending order or converted keys)")
+        else:
+            probs.append("sort entry point %s not recognised" % x["name"])
+        if probs:
+            res.append(bad("C09.S", key, f.loc(x["ln"]), "sorted/sorted_by_key: " + "; ".join(probs)))
+        else:
+            res.append(ok("C09.S", key, f.loc(x["ln"]), "stable sort_by with Value::partial_cmp(a, b) on the keys"))
+    return res
+
+
 def rule_f(F):
     """ties: among rows whose key-function results are equal (or incomparable) the FIRST row is the answer of min and of
     max. Decided from how native_minmax selects:
@@ -246,6 +293,7 @@ def rule_f(F):
 RULES = [
     Rule("C09.T", rule_t, 16, "native names, arities, polarity and exports are wired consistently"),
     Rule("C09.N", rule_n, 3, "natives do not mutate their input table"),
+    Rule("C09.S", rule_s, 1, "sorted orders by the language ordering, stably, ascending"),
     Rule("C09.F", rule_f, 1, "ties are resolved in favour of the first row"),
     Rule("C09.G", rule_g, 2, "rooting hazards inside the natives (shared with C02.R)"),
 ]
